@@ -14,6 +14,7 @@ import (
 	"bytes"
 	"encoding/json"
 	"fmt"
+	"os"
 	"sort"
 	"strings"
 	"time"
@@ -75,6 +76,11 @@ func main() {
 	kit.Silence()
 	r := vh.NewRun("C18", "exploration")
 
+	t0 := time.Now()
+	phase := func(name string) {
+		fmt.Fprintf(os.Stderr, "[c18] %-28s at %6.1fs\n", name, time.Since(t0).Seconds())
+		r.Max("phase_ms_"+name, time.Since(t0).Milliseconds())
+	}
 	pool := startOracle(r, 8)
 	defer pool.Close()
 	pool.selfTest(r)
@@ -92,7 +98,9 @@ func main() {
 		}
 		s1cases = append(s1cases, evalCase{ID: fmt.Sprintf("s1-%d", i), Spec: c.Spec, Styles: allStyles})
 	}
+	phase("oracle-ready")
 	s1res := ev.Evaluate(s1cases, 40)
+	phase("stage1-evaluated")
 	failed := map[string]map[string]map[string]bool{} // style -> check -> feature
 	for _, st := range allStyles {
 		failed[st] = map[string]map[string]bool{}
@@ -149,7 +157,23 @@ func main() {
 	var s2specs []TSpec
 	var s2cases []evalCase
 	seenCanon := map[string]bool{}
-	for len(s2specs) < nTypes {
+	var pairOf []*pairCase
+	pairs := pairCorpus()
+	for i := range pairs {
+		cn := canon(&pairs[i].Spec)
+		if seenCanon[cn] {
+			continue
+		}
+		seenCanon[cn] = true
+		if _, berr := buildType(&pairs[i].Spec); berr != "" {
+			r.Fatal("pair type %s x %s cannot be built: %s", pairs[i].A, pairs[i].B, berr)
+		}
+		s2cases = append(s2cases, evalCase{ID: fmt.Sprintf("s2-%d", len(s2specs)), Spec: pairs[i].Spec, Styles: allStyles})
+		s2specs = append(s2specs, pairs[i].Spec)
+		pairOf = append(pairOf, &pairs[i])
+	}
+	r.Count("stage2_pair_types", int64(len(s2specs)))
+	for len(s2specs) < len(pairOf)+nTypes {
 		spec := g.randomType()
 		cn := canon(&spec)
 		if seenCanon[cn] {
@@ -163,7 +187,9 @@ func main() {
 		s2specs = append(s2specs, spec)
 	}
 	r.Count("types_generated", int64(len(s1)+len(s2specs)))
+	r.Count("stage2_random_types", int64(len(s2specs)-len(pairOf)))
 	s2res := ev.Evaluate(s2cases, 100)
+	phase("stage2-evaluated")
 
 	type failure struct {
 		idx          int
@@ -192,7 +218,11 @@ func main() {
 				r.Inconclusive(fmt.Sprintf("stage2 type=%s style=%s: %s", goString(spec), st, res.Incon))
 				continue
 			}
-			r.Distinct(fmt.Sprintf("s2|%s|nf=%d|d=%d", st, len(label), depth))
+			if i < len(pairOf) {
+				r.Distinct(fmt.Sprintf("s2pair|%s|%s|%s", st, pairOf[i].A, pairOf[i].B))
+			} else {
+				r.Distinct(fmt.Sprintf("s2|%s|nf=%d|d=%d", st, len(label), depth))
+			}
 			if len(res.Fails) == 0 {
 				r.Count("stage2_pass", 1)
 				if sampled["s2pass"] < 2 && len(label) >= 3 && res.Refs > 0 {
@@ -228,6 +258,7 @@ func main() {
 		}
 	}
 	stripRes := ev.Evaluate(stripCases, 200)
+	phase("stage2-strip-evaluated")
 	stripSpec := map[string]*TSpec{}
 	for i := range stripCases {
 		stripSpec[stripCases[i].ID] = &stripCases[i].Spec
@@ -319,6 +350,7 @@ func main() {
 		}
 		r.Max("ddmin_rounds", int64(round+1))
 	}
+	phase("stage2-minimised")
 	for _, d := range dd {
 		label := labelOf(featuresOf(&d.spec))
 		var sig string
@@ -403,6 +435,7 @@ func main() {
 			r.Inconclusive("binding child did not finish: " + bc.Describe())
 		}
 	}
+	phase("binding-done")
 	r.Count("bind_ok", int64(bindOK))
 	r.Count("toolslist_ok", int64(listOK))
 	r.Count("corpus_types", int64(len(corpus.Types)))
